@@ -10,7 +10,10 @@ of Simulation.save_results regenerated from the source)
  + resume equivalence over the simulation options that interact with a resume (stream real-resume-options: engine class, output
    format, group_sites, measure_initial, save_every_x_seconds, save_psi / save_resume_data), with psi.grouped and the lengths of psi
    and model observed after every group_sites_for_algorithm / group_split and compared with Model/ResumeProto.v g_enter / g_split
-   (check_group); the grouping guard also called directly on pre-grouped states (stream group-guard)
+   (check_group); the grouping guard also called directly on pre-grouped states (stream group-guard); the algorithm_params of these runs
+   drawn too (draw_algorithm_params: start_time with a checkpoint exactly at evolved_time == 0.0, complex dt, start_trunc_err, chi_list) and
+   the counters of the engine re-created from every checkpoint compared with the resume data of the file (oracle, exact) and with p_resume of
+   Model/ResumeProto.v (Model/ResumeProtoCheck.v check_restore); the resume protocol of the engines called directly (stream engine-restore)
  + resume equivalence over the state of the DMRG engine besides psi and the environments (stream real-resume-dmrg, oracle only): mixer
    (active / just deactivated / deactivated at the checkpoint) and convergence history (min_sweeps = sweeps of the last checkpoint)
  + oracles written from the property text (a loadable file of the last completed checkpoint exists after
@@ -31,6 +34,7 @@ K_F18_3 = 'C18:DMRGEngine.run_iteration:ValueError-entropy-of-nondiagonal-S-afte
 K_F18_4 = 'C18:IterativeSweeps.pre_run_initialize:mixer-reactivated-on-resume'
 
 IMPORTS = ['Base.Prelude', 'Model.Fs', 'Model.ResumeProto']
+RESTORE_IMPORTS = ['Base.Prelude', 'Model.ResumeProto', 'Model.ResumeProtoCheck']
 
 
 # ----------------------------------------------------------------------------------------------
@@ -220,6 +224,13 @@ def re_of(t):
     return float(t)
 
 
+def time_list(v):
+    """the measured times as a list: the runner returns a complex array as {'re': [..], 'im': [..]}"""
+    if isinstance(v, dict):
+        return [[a, b] for a, b in zip(v['re'], v['im'])]
+    return list(v)
+
+
 def restored_counters(ctx, rec, case, spec, minit, units, restores):
     """Oracle + model case for the counters an engine is re-created with (what 'resuming from a checkpoint' means for the
     algorithm state): evolved_time / sweeps / trunc_err / number of sweep_stats entries of the engine right after
@@ -264,7 +275,7 @@ def real_oracle(ctx, out, coq_cases, coq_meta, coq_group=None, meta_group=None, 
     save_psi = bool(sp.get('save_psi', True))
     resumable = save_psi or bool(sp.get('save_resume_data', save_psi))
     plain = out['plain']
-    pm = plain['measurements']
+    pm = plain['measurements'] = {k: time_list(v) for k, v in plain['measurements'].items()}
     nrec = len(pm['measurement_index'])
     base = {'stream': stream, 'spec': spec}
     if not out['plain_file_equal'] or not plain['finished']:
@@ -283,7 +294,7 @@ def real_oracle(ctx, out, coq_cases, coq_meta, coq_group=None, meta_group=None, 
     unit = re_of(spec.get('dt', 0.05)) if is_te else 1
     t0 = float(spec.get('start_time', 0.)) if is_te else 0
     units = lambda t: int(round((re_of(t) - t0) / unit))  # noqa: E731
-    ptimes = [units(t) for t in pm[tkey]]
+    ptimes = [units(t) for t in time_list(pm[tkey])]
     ints = []
     restores = []
     # the engine of the uninterrupted run starts from the documented initial values of its counters
@@ -344,7 +355,7 @@ def real_oracle(ctx, out, coq_cases, coq_meta, coq_group=None, meta_group=None, 
         group_events(ctx, 'resumed run', rec.get('group_resume', []), gs_opt, True, case, coq_group, meta_group)
         exp_records = rec['ckpt_measurements']
         rs = rec['resumed']
-        rm = rs['measurements']
+        rm = rs['measurements'] = {k: time_list(v) for k, v in rs['measurements'].items()}
         probs = []
         vprobs = []         # differences of values only (same number of records): energy, state, measured numbers
         if not rs['finished']:
@@ -408,11 +419,12 @@ def real_oracle(ctx, out, coq_cases, coq_meta, coq_group=None, meta_group=None, 
             k_snap = rec['ckpt_measurements'] - (1 if minit else 0) - 1
             ck_g = [g for g in rec.get('ckpt_psi_grouped', []) if g is not None]
             if k_snap >= 0 and ck_g and len(set(ck_g)) == 1:
-                if min(units(t) for t in rm[tkey]) < 0:
+                rtimes = time_list(rm[tkey])
+                if not rtimes or min(units(t) for t in rtimes) < 0 or max(units(t) for t in rtimes) >= 5000:
                     ctx.fail('correspondence', 'resumed run measured at %s %s before the start of the run (%s): not a time of the model'
                              % (tkey, rm[tkey], t0), case)
                     continue
-                ints.append(((Nat(k_snap), Nat(ck_g[0])), [Nat(units(t)) for t in rm[tkey]], Nat(rs.get('psi_grouped', 1))))
+                ints.append(((Nat(k_snap), Nat(ck_g[0])), [Nat(units(t)) for t in rtimes], Nat(rs.get('psi_grouped', 1))))
             elif len(set(ck_g)) > 1:
                 ctx.fail('oracle', "results['psi'] and resume_data['psi'] of the checkpoint have different grouping %s" % ck_g, case,
                          match_key='C18:real:grouping')
@@ -523,6 +535,148 @@ def option_specs(ctx):
         spec['modes'] = ['listener', rng.choice(['write', 'rename'])] if not ctx.thorough() else ['listener', 'write', 'rename']
         specs.append(spec)
     return specs
+
+
+def draw_algorithm_params(rng, specs, thorough=False):
+    """The algorithm_params of the engines of stream real-resume-options, drawn from their documented option space
+    (called after all other streams are generated, with a generator derived from ctx.rng).
+    TimeEvolutionAlgorithm: `start_time` negative / zero / positive / absent together with dt (dyadic: all times are exact
+    floats), N_steps and final_time such that the checkpoints of the run lie
+      'neg-cross': before, exactly AT and after evolved_time == 0.0;   'neg-end': the last one exactly at 0.0 = final_time;
+      'neg': all before 0;  'zero' / 'default': start_time 0.0 given / not given;  'pos': all after a positive start_time;
+    final_time a multiple of the step or not; `dt` real or complex (evolved_time float | complex); `start_trunc_err` absent,
+    equal to the default (0, 1) or not.  One time evolution of every seed (one that saves at every checkpoint) is 'neg-cross' with a real dt.
+    Sweep engines (DMRG): `chi_list` absent or with an entry that takes effect at the first / a later checkpoint.
+    The number of checkpoints of a spec is not changed."""
+    def every_checkpoint_resumable(sp):
+        o = sp.get('sim_params', {})
+        return not sp.get('clock') and (o.get('save_psi', True) or o.get('save_resume_data', o.get('save_psi', True)))
+
+    te = [sp for sp in specs if sp['sim'] == 'RealTimeEvolution']
+    # the time evolution that gets a checkpoint exactly at evolved_time == 0.0 for every seed: one that saves a resumable file
+    # at every checkpoint, if there is one
+    forced = ([sp for sp in te if every_checkpoint_resumable(sp)] + te)[:1]
+    n_te = 0
+    for spec in forced + [sp for sp in specs if sp not in forced]:
+        if spec['sim'] == 'RealTimeEvolution':
+            nst = spec['N_steps']
+            ncp = max(2, int(round(spec['final_time'] / (spec['dt'] * nst))))
+            dt = rng.choice([0.0625, 0.03125, 0.125])
+            step = dt * nst
+            kind = 'neg-cross' if n_te == 0 else rng.choice(['neg-cross', 'neg-end', 'neg', 'zero', 'default', 'pos', 'pos'])
+            if kind == 'neg-cross':
+                start = -rng.randint(1, ncp - 1) * step
+            elif kind == 'neg-end':
+                start = -ncp * step
+            elif kind == 'neg':
+                start = -(ncp + rng.choice([1, 2])) * step - rng.choice([0., 0.5])
+            elif kind == 'pos':
+                start = rng.choice([0.5, 1.0, 0.375, step])
+            else:
+                start = 0.
+            final = start + ncp * step
+            if rng.random() < 0.25:
+                final -= 0.5 * step             # the run goes beyond final_time
+            spec.update(dt=dt, final_time=final, start_kind=kind)
+            if kind != 'default':
+                spec['start_time'] = start
+            if n_te > 0 and rng.random() < 0.35:
+                spec['dt'] = [dt, -rng.choice([0.5, 0.25]) * dt]        # complex time step
+            r = rng.random()
+            if r < 0.3:
+                spec['start_trunc_err'] = [rng.choice([1.e-3, 0.25, 0.]), rng.choice([0.99, 0.5])]
+            elif r < 0.4:
+                spec['start_trunc_err'] = [0., 1.]                      # the default, given explicitly
+            n_te += 1
+        else:
+            if rng.random() < (0.7 if thorough else 0.5):
+                chi = spec.get('chi', 4)
+                spec['chi_list'] = [[0, 2], [rng.choice([1, 2]), chi]]
+    return specs
+
+
+def restore_cases(rng, thorough=False):
+    """Stream engine-restore: the documented resume protocol of an engine without a Simulation around it,
+    `eng2 = AlgorithmClass(psi, model, options, resume_data=eng.get_resume_data()); eng2.resume_run()`, incl. resume data
+    that no checkpoint of a simulation holds (taken from an engine that did not run yet: sweeps 0, empty sweep_stats,
+    evolved_time == start_time, trunc_err == start_trunc_err).  Time evolutions: engine x runs before the save 0..2 x N_steps x
+    dyadic dt (real / complex) x start_time ('at-zero': = -runs*N_steps*dt, the saved evolved_time is exactly 0.0; negative;
+    positive; absent) x start_trunc_err.  DMRG: runs = 0, max_sweeps 2, chi_list absent / present."""
+    cases = []
+    te = ['TEBDEngine', 'TwoSiteTDVPEngine', 'SingleSiteTDVPEngine', 'ExpMPOEvolution']
+    n_te = 16 if thorough else 8
+    for i in range(n_te):
+        alg = te[i % 4]
+        runs = [1, 2, 0, 1][i % 4] if i < 4 else rng.choice([0, 1, 2])
+        nst = rng.choice([1, 2])
+        dt = rng.choice([0.0625, 0.03125, 0.125])
+        kind = 'at-zero' if i % 2 == 0 else rng.choice(['neg', 'pos', 'default', 'at-zero'])
+        c = {'sim': 'RealTimeEvolution', 'alg': alg, 'fmt': rng.choice(['pkl', 'h5']), 'L': rng.choice([4, 6]), 'chi': rng.choice([2, 4]),
+             'runs': runs, 'N_steps': nst, 'dt': dt, 'start_kind': kind}
+        if kind == 'at-zero':
+            c['start_time'] = -runs * nst * dt
+        elif kind == 'neg':
+            c['start_time'] = -rng.choice([0.5, 1., 3 * nst * dt])
+        elif kind == 'pos':
+            c['start_time'] = rng.choice([0.5, 1., nst * dt])
+        if kind != 'at-zero' and rng.random() < 0.4:
+            c['dt'] = [dt, -0.5 * dt]
+        r = rng.random()
+        if r < 0.35:
+            c['start_trunc_err'] = [rng.choice([1.e-3, 0.25, 0.]), rng.choice([0.99, 0.5])]
+        elif r < 0.45:
+            c['start_trunc_err'] = [0., 1.]
+        if alg == 'TEBDEngine':
+            c['order'] = rng.choice([1, 2, 4])
+        if alg == 'ExpMPOEvolution':
+            c['alg_params'] = {'compression_method': 'SVD'}
+        cases.append(c)
+    for i, alg in enumerate(['TwoSiteDMRGEngine', 'SingleSiteDMRGEngine']):
+        c = {'sim': 'GroundStateSearch', 'alg': alg, 'fmt': ['pkl', 'h5'][i], 'L': rng.choice([4, 6]), 'chi': 4, 'runs': 0,
+             'max_sweeps': 2, 'N_sweeps_check': 1}
+        if rng.random() < 0.5:
+            c['chi_list'] = [[0, 2], [1, 4]]
+        cases.append(c)
+    return cases
+
+
+def restore_eval(ctx, cases, results):
+    for c, r in zip(cases, results):
+        case = {'stream': 'engine-restore', 'case': c}
+        is_te = c['sim'] == 'RealTimeEvolution'
+        sv = r.get('saved') or {}
+        boundary = (sv.get('evolved_time') == [0., 0.] and c.get('start_time', 0.) != 0.) or sv.get('sweeps') == 0
+        ctx.count('engine-restore', c, nontrivial=bool(boundary) or c['runs'] > 0,
+                  sample={'case': c, 'saved': sv, 'restored': r.get('restored')})
+        if r.get('outcome') != 'ok':
+            ctx.fail('oracle', 'AlgorithmClass(psi, model, options, resume_data=engine.get_resume_data()) + resume_run of %s raised: %s'
+                     % (c['alg'], str(r.get('outcome'))[:400]), dict(case, observed=r), match_key='C18:engine-restore:raises')
+            continue
+        probs = []
+        t0 = float(c.get('start_time', 0.))
+        exp0 = ({'evolved_time': [t0, 0.], 'trunc_err': [float(x) for x in c.get('start_trunc_err', [0., 1.])]} if is_te
+                else {'sweeps': 0, 'n_sweep_stats': [0]})
+        if any(r['fresh'].get(k) != v for k, v in exp0.items()):
+            probs.append('a fresh engine starts with %s, expected %s' % (r['fresh'], exp0))
+        for k in sorted(sv):
+            if r['engine_at_save'].get(k) != sv[k]:
+                probs.append('get_resume_data stores %s = %s, the engine has %s' % (k, sv[k], r['engine_at_save'].get(k)))
+            if r['restored'].get(k) != sv[k]:
+                probs.append('engine re-created from resume_data has %s = %s, resume_data holds %s' % (k, r['restored'].get(k), sv[k]))
+        for k in ('evolved_time', 'trunc_err') if is_te else ('sweeps', 'n_sweep_stats'):
+            if k not in sv:
+                probs.append('resume_data holds no %s' % k)
+        a, b = r['after']
+        if not close(a, b, 1e-10):
+            probs.append('after one more run() / resume_run(): engine %s, re-created engine %s' % (a, b))
+        if r['overlap'] is None or abs(r['overlap'] - 1) > 1e-9 or abs(r['norm_ratio'] - 1) > 1e-9:
+            probs.append('states differ: overlap %r, norm ratio %r' % (r['overlap'], r['norm_ratio']))
+        if 'energies' in r and not close(r['energies'][0], r['energies'][1], 1e-10):
+            probs.append('energies %s' % r['energies'])
+        if probs:
+            ctx.fail('oracle', 'engine-restore %s (runs before the save: %d, options start_time=%s dt=%s N_steps=%s start_trunc_err=%s): '
+                     % (c['alg'], c['runs'], c.get('start_time'), c.get('dt'), c.get('N_steps'), c.get('start_trunc_err'))
+                     + '; '.join(probs)[:800], dict(case, observed=r), match_key='C18:engine-restore:differs')
 
 
 def dmrg_state_specs(ctx):
@@ -862,7 +1016,7 @@ def run_coq(ctx, name, checker, cases, meta, what, imports=None):
 
 
 def main(ctx):
-    ctx.proof = common.check_proofs('C18', extra_targets=['Model/FixNamesCheck.vo'])
+    ctx.proof = common.check_proofs('C18', extra_targets=['Model/FixNamesCheck.vo', 'Model/ResumeProtoCheck.vo'])
     intens = not ctx.proof.ok
     NP = common.NPROC
     # ---- replay of a single recorded input
@@ -882,13 +1036,22 @@ def main(ctx):
         if inp.get('stream') in ('real-resume', 'real-resume-options', 'real-resume-dmrg'):
             (res, err), = common.run_impl_parallel('c18_impl.py', [dict(kind='real', spec=inp['spec'], modes=[inp.get('mode') or 'listener'],
                                                                          checkpoints=[inp['at']] if inp.get('at') else None)])
-            cc, cm, cg, mg = [], [], [], []
+            cc, cm, cg, mg, cr, mr = [], [], [], [], [], []
             if err or 'runner_error' in res:
                 ctx.fail('correspondence', 'runner failed: %s' % (err or res['runner_error'])[-400:], None)
             else:
-                real_oracle(ctx, res, cc, cm, cg, mg)
+                real_oracle(ctx, res, cc, cm, cg, mg, cr, mr)
                 run_coq(ctx, 'c18_replay_g', 'check_group', cg, mg, 'Model/ResumeProto.v g_enter/g_split and the implementation disagree')
+                run_coq(ctx, 'c18_replay_r', 'check_restore', cr, mr, 'Model/ResumeProto.v p_resume and the implementation disagree on the '
+                        'restored counter', imports=RESTORE_IMPORTS)
             return ctx.finish(RULE, 'replay of one recorded resume')
+        if inp.get('stream') == 'engine-restore':
+            (res, err), = common.run_impl_parallel('c18_impl.py', [dict(kind='engine_restore', cases=[inp['case']])])
+            if err or isinstance(res, dict):
+                ctx.fail('correspondence', 'runner failed: %s' % (err or res)[-400:], None)
+            else:
+                restore_eval(ctx, [inp['case']], res)
+            return ctx.finish(RULE, 'replay of one engine-restore case')
         if inp.get('stream') == 'group-guard':
             (res, err), = common.run_impl_parallel('c18_impl.py', [dict(kind='group_guard', cases=[inp['case']])])
             cg, mg = [], []
@@ -944,8 +1107,15 @@ def main(ctx):
     gjobs = [dict(kind='group_guard', cases=gcases)]
     # ---- 6. resume equivalence over the engine state of DMRG that is not psi: mixer, convergence history (generated last)
     mjobs = [dict(kind='real', spec=sp, modes=['listener'] if not ctx.thorough() else ['listener', 'write']) for sp in dmrg_state_specs(ctx)]
+    rng2 = random.Random(ctx.rng.getrandbits(64))      # after all other draws from ctx.rng: the older streams keep their inputs
+    draw_algorithm_params(rng2, ospecs, ctx.thorough())
+    # ---- 7. the resume protocol of the engines called directly (generated last)
+    ecases = restore_cases(rng2, ctx.thorough() or intens)
+    ejobs = [dict(kind='engine_restore', cases=ecases)]
     rjobs = ojobs + rjobs + mjobs   # the longest jobs first
-    allres = common.run_impl_parallel('c18_impl.py', rjobs + jobs + djobs + fjobs + gjobs, maxpar=NP)
+    allres = common.run_impl_parallel('c18_impl.py', rjobs + ejobs + jobs + djobs + fjobs + gjobs, maxpar=NP)
+    (eres, eerr), = allres[len(rjobs):len(rjobs) + 1]
+    allres = allres[:len(rjobs)] + allres[len(rjobs) + 1:]
     rres, jres = allres[:len(rjobs)], allres[len(rjobs):len(rjobs) + len(jobs)]
     dres = allres[len(rjobs) + len(jobs):len(rjobs) + len(jobs) + len(djobs)]
     fres = allres[len(rjobs) + len(jobs) + len(djobs):len(rjobs) + len(jobs) + len(djobs) + len(fjobs)]
@@ -986,16 +1156,24 @@ def main(ctx):
             'Model/FixNames.v fix_name and Simulation.fix_output_filenames disagree on the chosen output name / Skip / ValueError',
             imports=FIX_IMPORTS)
 
-    coq_proto, meta_proto, coq_group, meta_group = [], [], [], []
+    coq_proto, meta_proto, coq_group, meta_group, coq_restore, meta_restore = [], [], [], [], [], []
     for job, (res, err) in zip(rjobs, rres):
         if err or 'runner_error' in res:
             ctx.fail('correspondence', 'real-simulation runner failed for %s: %s' % (job['spec'], (err or res['runner_error'])[-600:]),
                      {'stream': job['spec'].get('stream', 'real-resume'), 'spec': job['spec']})
             continue
-        real_oracle(ctx, res, coq_proto, meta_proto, coq_group, meta_group)
+        real_oracle(ctx, res, coq_proto, meta_proto, coq_group, meta_group, coq_restore, meta_restore)
+    run_coq(ctx, 'c18_restore', 'check_restore', coq_restore, meta_restore,
+            'Model/ResumeProto.v p_resume and the implementation disagree on the counter (evolved_time / sweeps, in time steps since start_time) '
+            'stored in a checkpoint file, the counter of the engine re-created from it, or the number of records the resumed run starts with',
+            imports=RESTORE_IMPORTS)
     run_coq(ctx, 'c18_proto', 'check_proto', coq_proto, meta_proto,
             'Model/ResumeProto.v and the implementation disagree on the sequence of measurement times or on psi.grouped '
             '(checkpoint file / final state; plain or resumed run)')
+    if eerr or isinstance(eres, dict):
+        ctx.fail('correspondence', 'engine_restore runner failed: %s' % (eerr or eres.get('runner_error', ''))[-500:], None)
+    else:
+        restore_eval(ctx, ecases, eres)
     for (res, err) in gres:
         if err or isinstance(res, dict):
             ctx.fail('correspondence', 'group_guard runner failed: %s' % (err or res.get('runner_error', ''))[-500:], None)
@@ -1033,11 +1211,21 @@ RULE = ('fs-history: all crash points (before every primitive path operation, in
         'compared with the plain run. real-resume-options: the same comparison with the simulation options drawn per seed: simulation/engine '
         'class (incl. ExpMPOEvolution) x pickle/HDF5 x group_sites 1/2 (TEBD also group_to_NearestNeighborModel on a next-nearest-neighbour chain) x '
         'measure_initial x save at every checkpoint / only every few checkpoints (save_every_x_seconds > 0 under a deterministic clock) x '
-        '(save_psi, save_resume_data) in (T,T),(F,T),(F,F: documented refusal); stopped after every checkpoint + inside a write / after a rename; '
+        '(save_psi, save_resume_data) in (T,T),(F,T),(F,F: documented refusal) x algorithm_params of the engine: start_time negative / 0 / positive / '
+        'absent with dyadic dt, N_steps, final_time such that checkpoints lie before, exactly at and after evolved_time == 0.0 (one such run per seed; '
+        'also: the last checkpoint at 0.0, all before 0, final_time not a multiple of the step), dt real / complex, start_trunc_err absent / default / other, '
+        'chi_list for DMRG; stopped after every checkpoint + inside a write / after a rename; the counters of the engine re-created from the checkpoint '
+        '(evolved_time, sweeps, trunc_err, entries of sweep_stats, records) are compared exactly with resume_data of the loaded file and, in time steps '
+        'since start_time, with p_resume of Model/ResumeProto.v (Model/ResumeProtoCheck.v check_restore); '
         'psi.grouped and the lengths of psi and model after group_sites_for_algorithm / group_split of every process are compared with '
         'Model/ResumeProto.v (check_group), psi.grouped in the checkpoint file and of the final states with check_proto. group-guard: '
         'group_sites_for_algorithm + group_split called directly on psi pre-grouped by [], [2], [3], [4], [2,2] x group_sites 0..4 x '
         'loaded_from_checkpoint; non-trivial = group_sites > 1. real-resume-dmrg: 1-/2-site DMRG with a mixer (engine default / drawn amplitude, decay, '
         'disable_after: checkpoints with an active mixer, right after and after its deactivation) and with the convergence criterion deciding '
         '(min_sweeps = sweeps of the last checkpoint of the uninterrupted run), stopped at every checkpoint, resumed, compared with the plain run; the '
-        'mixer and the length of sweep_stats at the start of every sweep are observed to attribute a difference.')
+        'mixer and the length of sweep_stats at the start of every sweep are observed to attribute a difference. engine-restore: the documented protocol '
+        'eng2 = AlgorithmClass(psi, model, options, resume_data=eng.get_resume_data()); eng2.resume_run() without a Simulation, the resume data written to '
+        'pickle / HDF5 and loaded: TEBD, TDVP (1-/2-site), ExpMPOEvolution after 0..2 runs x N_steps x dyadic real / complex dt x start_time (such that the '
+        'saved evolved_time is exactly 0.0; negative; positive; absent) x start_trunc_err, DMRG (1-/2-site) before the first sweep (sweeps 0, empty '
+        'sweep_stats) x chi_list: counters of the re-created engine == saved counters, one more run() of both engines gives the same counters and state; '
+        'non-trivial = the engine ran before the save or a saved counter is 0 while the corresponding option is not.')
